@@ -124,6 +124,14 @@ class SdRunner(ScenarioRunner):
 
             sc.result = sc.sd_simulation.start(output=["frame"], start=step, until=step,equations=equations)
 
+            # Memoise every equation of the model for this step. Equations that were not requested are evaluated lazily;
+            # without this they would be computed for this step only after the settings of a later step have been applied.
+            for equation in list(sc.model.equations.keys()):
+                try:
+                    sc.model.equation(equation, step)
+                except Exception:
+                    pass
+
         return {name:scenario.result.to_dict() for name,scenario in scenario_objects.items()}
 
     #TODO this really should just take on scenario manager - it doesn't make sense to call it on multiple scenario managers. It should be called run_scenarios
